@@ -23,6 +23,9 @@ def run(chk, replay=None):
         return ('{"t":{"$date":"2020-01-01T00:00:00.000+00:00"},"s":"I","c":"COMMAND","id":51803,"ctx":"conn%s","msg":"Slow query","attr":{"ns":"mydb.users","command":{"find":"users","filter":{"f%s":{"$in":[%s]}},"$db":"mydb"}}}' % (tag, tag, vals)).encode()
     longs = [long_line(n, t) for n, t in ((4200, 'a'), (5000, 'b'), (9000, 'c'), (17000, 'd'), (33000, 'e'), (60000, 'f'), (65000, 'g'))]
     logs += [[longs[0], pool[0], longs[1], longs[2]], [longs[3], longs[4]], [pool[1], longs[5], pool[2], longs[3], longs[1]], [longs[6], pool[0]], [longs[2], b'', longs[2], b'not json', longs[4]]]
+    # families of near-duplicate lines (same planCacheKey / queryHash / ctx, one member different), in both orders and with repetitions
+    from vlib import gen as _gen
+    logs += _gen.family_logs()[:: (1 if th else 2)]
     cfgs = [Cfg(), Cfg(nums=True, nss=True, ips=True), Cfg(eager=['mydb', 'shop'], repl='Q')]
     chk.rule = ("multi-line logs drawn from {grammar command lines, arbitrary-JSON lines of other components, blank, whitespace-only, non-JSON text, scalars/arrays, truncated objects}; "
                 "LF/CRLF, with/without final newline, random split points, permutations; non-trivial = distinct logs with >= 2 lines of which >= 1 is emitted")
@@ -40,7 +43,7 @@ def run(chk, replay=None):
         mr = streamlib.model_stream(cfg, cases)
         # per-line results of the implementation
         flat = sorted({l for ls in logs for l in ls})
-        pl = dict(zip(flat, [io for io, _ in run_lines(cfg, flat)]))
+        pl = dict(zip(flat, run_alone(cfg, flat)))          # each line in a fresh process: "what that line yields when processed on its own"
         for (ls, crlf, final), c, (icls, iout, _), (mcls, mout) in zip(meta, cases, ir, mr):
             chk.count(); chk.traces += 1
             case = {'cfg': cfg.describe(), 'lines': [l.decode('utf-8', 'replace') for l in ls], 'crlf': crlf, 'final_newline': final, 'chunk': c['chunk'], 'bar': c['bar']}
